@@ -171,6 +171,9 @@ def mutants(prog):
         ("wlcc epsilon after sqrt", LF, "wlcc_loss", "loss = a.square_().div_(b.mul_(c).add_(epsilon)).neg_().add_(1)", "loss = a.div_(b.mul_(c).sqrt().add(epsilon)).square_().neg_().add_(1)", "E8.guard-placement"),
         ("ncc epsilon after sqrt", LF, "ncc_loss", "RETURN", "RETURN", "SKIP"),
         ("homogeneous_transform rounds", "deepali.core.linalg", "homogeneous_transform", "return ", "return torch.round(", "SKIP"),
+        ("in-place reciprocal on the output of exp", "deepali.spatial.linear", "IsotropicScaling.tensor", "scales = 1 / scales", "scales = scales.reciprocal_()", "E8.saved-inplace"),
+        ("in-place add on tanh output", "deepali.spatial.linear", "AnisotropicScaling.scales", "params = params.sub(1).tanh().exp()", "params = params.sub(1).tanh().mul_(1).exp()", "E8.saved-inplace"),
+        ("update hook bound to the instance", "deepali.spatial.base", "SpatialTransform._update_hook", "@staticmethod\ndef _update_hook(transform: Module, *args, **kwargs) -> None:", "def _update_hook(transform, *args, **kwargs) -> None:", "E8.hook-receiver"),
     ]
     for name, mod, fn, old, new, expect in specs:
         if expect == "SKIP":
